@@ -433,6 +433,7 @@ def plan(tier, seed):
                  capped=False, bound={k: x["bound"] for k, x in fam.items()}, families=fam, exhaustive=True)
     stats["dimensions"] = {f"{k}.{d}": n for k, x in fam.items() for d, n in x["dimensions"].items()}
     stats["binding_values"] = DIMS
+    items = optplan.apply_debug_filter(items, stats)
     return items, stats
 
 
